@@ -28,6 +28,21 @@ NoMissedWake == (Idle /\ pending = <<>> /\ fault = "") =>
 \* C01: every queued activation lies in the future; dates never lie in the past
 FutureOnly == \A t \in Times : t <= now => future[t] = <<>>
 
+\* C12: what left a supply and has not been given back is accounted for by a borrow block in progress or by a
+\*      give-back helper that is already scheduled (claimed only for configurations without interrupts, DESIGN.md)
+RECURSIVE SumSeq(_)
+SumSeq(s) == IF s = <<>> THEN 0 ELSE Head(s) + SumSeq(Tail(s))
+OutOf(p) ==
+  LET RECURSIVE Frames(_) Frames(a) == IF a > MaxActs THEN <<>> ELSE
+        [i \in 1..Len(act[a].stack) |->
+           IF act[a].stack[i].k = "borrow" /\ act[a].stack[i].p = p /\ act[a].stack[i].ph \in {"rm", "ins", "body", "x1"}
+           THEN act[a].stack[i].amt ELSE 0] \o Frames(a + 1)
+      helpers == [i \in 1..Len(pending) |-> IF pending[i].tgt = 0 /\ pending[i].sig[1] = "hlp" /\ pending[i].sig[2] = p
+                                                 /\ pending[i].sig[4] THEN pending[i].sig[3] ELSE 0] IN
+  SumSeq(Frames(1)) + SumSeq(helpers)
+Conservation == \A p \in 1..NRes : obj.pool[p].level + OutOf(p) = ResInit
+ShareBounded == \A p \in (NRes + 1)..MaxPools : obj.pool[p].level <= obj.pool[p].debit
+
 \* C09
 MutualExclusion == \A l \in Locks : \A a, b \in Acts : (HeldCount(a, l) > 0 /\ HeldCount(b, l) > 0) => a = b
 OwnerConsistent == \A l \in Locks : \A a \in Acts : HeldCount(a, l) > 0 => (lock[l].owner = a /\ lock[l].depth = HeldCount(a, l))
